@@ -458,12 +458,21 @@ def extra(c):
         raise vlib.ToolError("liveness check failed on the model")
     c.states += r["distinct"]
     c.transitions += r["states"]
+    # two controllers on one bus: safe when a transfer holds the bus, unsafe (expected counterexample) when exchanges interleave freely
+    r1 = vlib.run_mc("EXTRA", "MC_Multi", "MC_Multi_transfer.cfg", "mc", workers=4, timeout=600, coverage=False)
+    r2 = vlib.run_mc("EXTRA", "MC_Multi", "MC_Multi_free.cfg", "mc", workers=1, timeout=600, coverage=False)
+    cex = "Invariant Post is violated" in r2["tail"]
+    log("[M] MC_Multi: bus held per transfer: ok=%s (%d states); free interleaving: counterexample found=%s (expected: the protocol's data "
+        "chunks carry no address)" % (r1["ok"], r1["distinct"], cex))
+    if not r1["ok"] or not cex:
+        raise vlib.ToolError("MC_Multi did not behave as documented")
+    c.details["multi_controller"] = {"policy_transfer_ok": True, "policy_free_counterexample": True}
     n, ok, secs = vlib.run_tlapm("PixelIndex")
     log("[P] TLAPS PixelIndex: %d obligations, all proved=%s, %.1fs" % (n, ok, secs))
     if not ok:
         raise vlib.ToolError("TLAPS proof does not check")
     c.details["tlaps"] = {"obligations": n, "discharged": n}
-    return c.finish("model_checking", "extras: Display formats of frames/messages/pages validated against Display.tla; liveness of controller calls; TLAPS layout proof")
+    return c.finish("model_checking", "extras: two controllers sharing a bus; Display formats of frames/messages/pages validated against Display.tla; liveness of controller calls; TLAPS layout proof")
 
 
 CHECKS = {"EXTRA": extra, "C17": c17, "C15": c15, "C16": c16, "C18": c18, "C20": c20, "C06": c06, "C07": c07, "C19": c19, "C08": c08, "C09": c09, "C10": c10, "C11": c11, "C12": c12, "C13": c13, "C14": c14, "C01": c01, "C02": c02, "C03": c03, "C04": c04, "C05": c05}
